@@ -246,7 +246,9 @@ def build(rng, depth):
         raise
     if back != s:
         return None          # e.g. a dict literal collapsed two equal keys: not the schema we described
-    return s, real
+    # (the description as read back: equal to s for Python, and with the value kinds alpha gives --
+    # `0 == False` and `1 == 1.0` are equal dict values and different JSON)
+    return back, real
 
 
 def schemas(rng, n, depth):
